@@ -307,6 +307,8 @@ def build_driver(pkg, name=None, race=False, tags="verif", timeout=1500):
     name = name or pkg.strip("./").replace("/", "_") or "root"
     if race:
         name += ".race"
+    if os.environ.get("VERIF_REPO"):
+        name += ".alt"   # builds from an alternative tree never overwrite the binaries of /repo runs
     out = os.path.join(BIN, "drv", name + ".test")
     os.makedirs(os.path.dirname(out), exist_ok=True)
     ov = overlay_json()
